@@ -59,6 +59,8 @@ structure E2EDom (K V P H M Pat : Type) where
   expected : Option (Pat → H → List M)
   /-- classify a miss / false positive as a listed known finding (signature), if any -/
   known : Pat → Option String := fun _ => none
+  /-- classify an automaton-vs-baseline difference as a listed known finding, if any -/
+  knownC03 : Pat → Option String := fun _ => none
 
 structure E2EOut where
   oracle : List String := []
@@ -175,12 +177,15 @@ def handleE2E {K V P H M Pat} [DecidableEq K] [DecidableEq V] [DecidableEq P]
         if modelNaive != implNaive then
           out := { out with dis := out.dis ++ [s!"SINGLE.run matches differ model={join modelNaive} impl={join implNaive}"] }
       -- C03: automaton vs baseline (ids of the baseline are positions among the compiled ones)
-      let relabel := naive.map fun (j, m) => s!"{compiled.getD j j}:{dom.sMap m}"
-      let manySet := (sortStrings implMany).eraseDups
-      let naiveSet := (sortStrings relabel).eraseDups
-      if manySet != naiveSet then
-        out := { out with oracle := out.oracle ++
-          [s!"C03 automaton-vs-baseline many-only={join (multisetDiff manySet naiveSet)} baseline-only={join (multisetDiff naiveSet manySet)}"] }
+      for i in compiled do
+        let j := compiled.idxOf i
+        let manySet := (sortStrings ((many.filter (·.1 == i)).map fun (_, m) => dom.sMap m)).eraseDups
+        let naiveSet := (sortStrings ((naive.filter (·.1 == j)).map fun (_, m) => dom.sMap m)).eraseDups
+        if manySet != naiveSet then
+          match (pats[i]?).bind dom.knownC03 with
+          | some sig => out := { out with known := out.known ++ [s!"C03 {sig}"] }
+          | none => out := { out with oracle := out.oracle ++
+              [s!"C03 automaton-vs-baseline pattern={i} many-only={join (multisetDiff manySet naiveSet)} baseline-only={join (multisetDiff naiveSet manySet)}"] }
       -- C05 baseline vs occurrence oracle
       match dom.expected with
       | none => pure ()
@@ -263,5 +268,63 @@ def strE2E : E2EDom Nat Nat CharPred (List Nat) StrPos (List CharVar) :=
     pKey := pNat, pCons := pSCons, pPat := pList pCharVar, pHost := pList pNat, pMap := pStrPos,
     sMap := sStrPos, convert := fun p => some (strConstraints p), consEq := fun a b => a == b,
     extraKeys := fun _ => [], expected := some strExpected }
+
+end Drv
+
+namespace Drv
+open Pm
+
+def matDomain : Domain MKey MVal CharPred MatHost MatPos :=
+  { req := matReq, opts := matOpts, map := matPosMap, arity := CharPred.arity,
+    check := fun p h vs => matCheck p h vs }
+
+def pMatCell : Parser (Option CharVar) := do
+  let k ← pNat
+  let c ← pNat
+  pure (match k with | 0 => some (.lit c) | 1 => some (.var c) | _ => none)
+
+def sMatPos : MatPos → String
+  | .unbound => "U"
+  | .bound sr sc a b c d => s!"B{sr},{sc}[{a},{b}..{c},{d}]"
+
+def matExpected (p : MatPattern) (h : MatHost) : List MatPos :=
+  let ext := matExtent p
+  (matOccurrences p h).map fun (r, c) => .bound r c 0 0 ext.1 ext.2
+
+def matE2E : E2EDom MKey MVal CharPred MatHost MatPos MatPattern :=
+  { name := "MAT", D := matDomain, toTree := charTree mkeyLt,
+    pKey := pMKey, pCons := pMCons, pPat := pList (pList pMatCell), pHost := pList (pList pNat),
+    pMap := pMatPos, sMap := sMatPos, convert := fun p => some (matConstraints p),
+    consEq := fun a b => a == b, extraKeys := fun _ => [], expected := some matExpected }
+
+structure TPat where
+  cons : List TCons
+  extra : Option (List Nat)
+  convertible : Bool
+
+def tableE2E (s : TScheme) (strategy : Nat) : E2EDom Nat Nat TPred THost TMap TPat :=
+  { name := "TAB",
+    D := { req := s.req, opts := THost.opts s, map := tMap, arity := TPred.arity,
+           check := fun p h vs => TPred.check p h vs },
+    toTree := fun cs => tTreeAll strategy cs FUEL,
+    pKey := pNat, pCons := pTCons,
+    pPat := (do
+      let cons ← pList pTCons
+      let extra ← pOpt (pList pNat)
+      let conv ← pBool
+      pure ⟨cons, extra, conv⟩),
+    pHost := pTHost, pMap := pList (pPair pNat pNat),
+    sMap := fun m => sPairs (sortPairs m),
+    convert := fun p => if p.convertible then some p.cons else none,
+    consEq := fun a b => a == b,
+    extraKeys := fun p => p.extra.getD [],
+    expected := none,
+    knownC03 := fun p => if (p.extra.getD []).isEmpty then none
+      else some "baseline-ignores-Pattern::required_bindings" }
+
+def handleE2ETable : Parser String := do
+  let s ← pScheme
+  let strategy ← pNat
+  handleE2E (tableE2E s strategy)
 
 end Drv
